@@ -225,7 +225,28 @@ def cpalt():
                init_chains=[(0, 1), (0, 1, 2), (0, 1, 2, 3)])
 
 
-UNIVERSES = {"u1l": u1l, "cpalt": cpalt, "quick": quick, "small": small, "u1": u1, "deep": deep, "retarget": retarget, "stale": stale}
+def cpdeep():
+    """Checkpoint failure with a DEEP rollback: checkpoints at heights 1 and 5, so a valid header that is not the
+    checkpoint, arriving at height 5 on top of a stored chain, makes handleHeadersMsg roll the stores back to the
+    previous checkpoint through up to three stored blocks (rollBackToHeight called from the checkpoint-mismatch
+    path, whose error is logged and the client carries on).  Used with the store-rollback fault kinds."""
+    H = [
+        {"id": 0, "parent": -1, "work": 2},
+        {"id": 1, "parent": 0, "work": 2},           # checkpoint at height 1
+        {"id": 2, "parent": 1, "work": 1},
+        {"id": 3, "parent": 2, "work": 1},
+        {"id": 4, "parent": 3, "work": 1},
+        {"id": 5, "parent": 4, "work": 1},           # checkpoint at height 5
+        {"id": 6, "parent": 5, "work": 1},
+        {"id": 7, "parent": 4, "work": 1},           # valid, at the checkpoint height, not the checkpoint
+        {"id": 8, "parent": 4, "work": 1, "kind": "badpow"},
+    ]
+    B = [[2], [3], [4], [5], [7], [8], [2, 3], [3, 4], [4, 5], [4, 7], [3, 4, 7], [2, 3, 4], [5, 6], [4, 5, 6], [1, 2]]
+    return _mk(H, {1: 1, 5: 5}, 2, [0, 6], [4], 2, 3, batches=B,
+               init_chains=[(0, 1), (0, 1, 2, 3), (0, 1, 2, 3, 4)])
+
+
+UNIVERSES = {"cpdeep": cpdeep, "u1l": u1l, "cpalt": cpalt, "quick": quick, "small": small, "u1": u1, "deep": deep, "retarget": retarget, "stale": stale}
 
 
 def tla(u):
